@@ -267,6 +267,7 @@ type schedDecision struct {
 	runnable []int
 	chosen   int
 	cur      int // worker that ran the previous slice (-1 at the start)
+	def      int // what the default scheduler would have chosen
 }
 
 type coopSched struct {
@@ -279,6 +280,7 @@ type coopSched struct {
 	dec     []schedDecision
 	unknown []string // statements outside the classification (still scheduled, label "other")
 	stuck   bool
+	cut     bool
 }
 
 var reGid = regexp.MustCompile(`^goroutine (\d+) `)
@@ -401,8 +403,8 @@ func (cs *coopSched) txHook(sess *pgsem.Session, kind string) {
 	}
 }
 
-func (cs *coopSched) runnable() []int {
-	var out []int
+// runnable workers (index order) and, among them, the waiters whose lock holder has finished
+func (cs *coopSched) runnable() (out, woken []int) {
 	for _, w := range cs.workers {
 		switch w.state {
 		case wParked:
@@ -410,10 +412,23 @@ func (cs *coopSched) runnable() []int {
 		case wBlocked:
 			if w.blockedOn == 0 || cs.pg.TxDone(w.blockedOn) {
 				out = append(out, w.idx)
+				woken = append(woken, w.idx)
 			}
 		}
 	}
-	return out
+	return out, woken
+}
+
+// defaultChoice: the default scheduler is non-preemptive and hands released locks to waiters first (lowest index): a woken
+// waiter runs before anybody else, otherwise the current worker continues, otherwise the lowest runnable index.
+func defaultChoice(runnable, woken []int, cur int) int {
+	if len(woken) > 0 {
+		return woken[0]
+	}
+	if intsContain(runnable, cur) {
+		return cur
+	}
+	return runnable[0]
 }
 
 // slice resumes worker w and waits until it parks, blocks or finishes; records the event it performed
@@ -449,6 +464,7 @@ type SchedRun struct {
 	Logs     [][2]string // id idempotency_key
 	Unknown  []string
 	Stuck    bool
+	Cut      bool
 	Viol     []schedViolation
 	Waits    int
 	Deadlock int
@@ -498,16 +514,13 @@ func intsContain(xs []int, x int) bool {
 	return false
 }
 
-// prefixPolicy follows an explicit schedule, then runs non-preemptively (current worker while runnable, else lowest index)
+// prefixPolicy follows an explicit schedule (an entry that is not runnable falls back to the default), then the default scheduler
 func prefixPolicy(sch []int) schedPolicy {
-	return func(i int, runnable []int, cur int) int {
+	return func(i int, runnable []int, def int) int {
 		if i < len(sch) && intsContain(runnable, sch[i]) {
 			return sch[i]
 		}
-		if intsContain(runnable, cur) {
-			return cur
-		}
-		return runnable[0]
+		return def
 	}
 }
 
@@ -585,7 +598,7 @@ func runSchedule(scn *Scenario, pol schedPolicy) *SchedRun {
 	}
 	cur := -1
 	for i := 0; ; i++ {
-		rn := cs.runnable()
+		rn, woken := cs.runnable()
 		if len(rn) == 0 {
 			for _, w := range cs.workers {
 				if w.state != wDone {
@@ -594,19 +607,20 @@ func runSchedule(scn *Scenario, pol schedPolicy) *SchedRun {
 			}
 			break
 		}
-		c := pol(i, rn, cur)
-		cs.dec = append(cs.dec, schedDecision{rn, c, cur})
+		def := defaultChoice(rn, woken, cur)
+		c := pol(i, rn, def)
+		cs.dec = append(cs.dec, schedDecision{rn, c, cur, def})
 		run.Sched = append(run.Sched, c)
 		cs.slice(cs.workers[c], afterCommit)
 		cur = c
-		if i > 400 {
-			cs.stuck = true
+		if i > 150 { // an unfair schedule can make deadlock victims retry forever (livelock): cut, reported as such
+			cs.cut = true
 			break
 		}
 	}
 	st.PG.Sched = nil
 	st.PG.TxHook = nil
-	run.Commits, run.Events, run.Dec, run.Unknown, run.Stuck = cs.commits, cs.events, cs.dec, cs.unknown, cs.stuck
+	run.Commits, run.Events, run.Dec, run.Unknown, run.Stuck, run.Cut = cs.commits, cs.events, cs.dec, cs.unknown, cs.stuck, cs.cut
 	for _, e := range cs.events {
 		if e.status == "blocked" {
 			run.Waits++
@@ -618,7 +632,7 @@ func runSchedule(scn *Scenario, pol schedPolicy) *SchedRun {
 	for _, w := range cs.workers {
 		run.Res = append(run.Res, w.res)
 	}
-	if !cs.stuck {
+	if !cs.stuck && !cs.cut {
 		run.Bal = readBalances(st.PG)
 		for _, r := range rawRows(st.PG, `select id, reverted_at is not null, coalesce(reference, '') from transactions where ledger = 'l1' order by id`) {
 			rv := "0"
@@ -631,13 +645,18 @@ func runSchedule(scn *Scenario, pol schedPolicy) *SchedRun {
 			run.Logs = append(run.Logs, [2]string{r[0], r[1]})
 		}
 	}
-	st.SQL.Close()
+	if !cs.stuck && !cs.cut {
+		st.SQL.Close()
+	}
 	return run
 }
 
 func (r *SchedRun) outcomeSx() string {
 	if r.Stuck {
 		return L("outcome", "stuck")
+	}
+	if r.Cut {
+		return L("outcome", "cut")
 	}
 	var res, com, bal, txs, logs, evs []string
 	for _, x := range r.Res {
@@ -668,6 +687,9 @@ func (r *SchedRun) monitors() {
 	add := func(p, m string) { r.Viol = append(r.Viol, schedViolation{p, m}) }
 	if r.Stuck {
 		add(scn.Prop, "[sched-stuck] the run did not terminate: workers blocked without a detectable cycle")
+		return
+	}
+	if r.Cut { // livelock of retrying deadlock victims under an unfair schedule: not an outcome, nothing to check
 		return
 	}
 	for i, x := range r.Res {
@@ -809,11 +831,11 @@ func (r *SchedRun) monitors() {
 }
 
 // ---------------------------------------------------------------- exploration
+// preemptions = decisions that deviate from the default scheduler
 func preemptions(dec []schedDecision, upto int) int {
 	n := 0
 	for i := 0; i < upto && i < len(dec); i++ {
-		d := dec[i]
-		if d.cur >= 0 && d.chosen != d.cur && intsContain(d.runnable, d.cur) {
+		if dec[i].chosen != dec[i].def {
 			n++
 		}
 	}
@@ -865,7 +887,7 @@ func explore(scn *Scenario, maxPre, budget int, each func(*SchedRun)) (runs int,
 				}
 				np := append(append([]int{}, r.Sched[:i]...), alt)
 				pre := preemptions(r.Dec, i)
-				if d.cur >= 0 && alt != d.cur && intsContain(d.runnable, d.cur) {
+				if alt != d.def {
 					pre++
 				}
 				if pre > maxPre {
@@ -882,7 +904,7 @@ func explore(scn *Scenario, maxPre, budget int, each func(*SchedRun)) (runs int,
 }
 
 func randomPolicy(r *Rng) schedPolicy {
-	return func(i int, runnable []int, cur int) int { return runnable[r.Intn(len(runnable))] }
+	return func(i int, runnable []int, def int) int { return runnable[r.Intn(len(runnable))] }
 }
 
 func parseSchedCase(line string) (*Scenario, []int) {
@@ -920,6 +942,9 @@ func cmdSched(args []string) int {
 		out.Stats["schedules_"+r.Scn.Name]++
 		out.Stats["lock_waits"] += r.Waits
 		out.Stats["deadlocks_resolved"] += r.Deadlock
+		if r.Cut {
+			out.Stats["unfair_livelock_cut"]++
+		}
 		if r.Waits+r.Deadlock > 0 || preemptions(r.Dec, len(r.Dec)) > 0 {
 			out.Stats["distinct_nontrivial"]++
 		}
